@@ -34,7 +34,7 @@ structure WF (s : State) : Prop where
     s.feeAcc ≠ s.posAcc ∧ s.feeAcc ≠ s.daoAcc ∧ s.posAcc ≠ s.daoAcc
   keysNotMods : ∀ k ∈ s.keys, isMod s k.2 = false
   valsAreKeys : ∀ e ∈ s.vals, ∃ k ∈ s.keys, k.2 = e.1
-  minStakePos : 0 < s.p.minStake
+  minStakeNonneg : 0 ≤ s.p.minStake
 
 /-- C02: recorded supply equals the sum of all balances. -/
 def SupplyOK (s : State) : Prop := s.supply = sumBal s
